@@ -258,6 +258,7 @@ PROPS = {
     },
     'C14': {
         'sidecars': ['contracts/c14_timeout.py'],
+        'more_sidecar_groups': [['contracts/c14_abandoned.py']],
         'native': 'c14', 'ground': False,
         'level': 'other',
         'explanation': 'Sequential part proved from the real source: timeout() starts and joins the worker once, terminates it at most '
